@@ -20,7 +20,7 @@ variable {K : Type} [Field K] [LinearOrder K] [IsStrictOrderedRing K]
 /-- **Every member of each invalid pin class is rejected.** -/
 theorem c18_reject_pin (s3 : K) (a : Asm K) :
     (a.pitch ≤ 0 ∨ a.diam ≤ 0 ∨ a.clad ≤ 0 ∨ a.nRing = 0 → checkPin s3 a ≠ .ok ())
-    ∧ (a.pitch < a.diam → checkPin s3 a ≠ .ok ())
+    ∧ (a.pitch ≤ a.diam → checkPin s3 a ≠ .ok ())
     ∧ (a.diam / 2 < a.clad → checkPin s3 a ≠ .ok ())
     ∧ (a.pitch - a.diam < a.wire → checkPin s3 a ≠ .ok ()) := by
   refine ⟨?_, ?_, ?_, ?_⟩ <;>
@@ -49,20 +49,20 @@ theorem c18_reject_fit (s3 : K) (a : Asm K) (d : K) (ds : List K) (hd : a.ducts 
     intro hc; cases hc
 
 /-- **What acceptance guarantees** (so that the geometry / step models are well posed): positive
-pitch, diameter and clad thickness, at least one ring, pitch ≥ diameter, clad ≤ radius, the wire fits
+pitch, diameter and clad thickness, at least one ring, pitch > diameter (touching pins are refused: defect 67), clad ≤ radius, the wire fits
 in the pin gap; and for a pin bundle, the bundle fits in the smallest duct. -/
 theorem c18_accept_wellposed (s3 : K) (a : Asm K) (h : checkPin s3 a = .ok ()) :
-    a.nRing ≠ 0 ∧ 0 < a.pitch ∧ 0 < a.diam ∧ 0 < a.clad ∧ a.diam ≤ a.pitch ∧ a.clad ≤ a.diam / 2
+    a.nRing ≠ 0 ∧ 0 < a.pitch ∧ 0 < a.diam ∧ 0 < a.clad ∧ a.diam < a.pitch ∧ a.clad ≤ a.diam / 2
       ∧ a.wire ≤ a.pitch - a.diam
       ∧ (a.lowFidelity = false → ∀ d ds, a.ducts = d :: ds →
           s3 * ((a.nRing - 1 : Nat) : K) * a.pitch + a.diam + 2 * a.wire ≤ minList d ds) := by
   unfold checkPin at h
   split_ifs at h with h1 h2 h3 h4 h5
   · push_neg at h1
-    refine ⟨h1.1, h1.2.1, h1.2.2.1, h1.2.2.2, not_lt.mp h2, not_lt.mp h3, not_lt.mp h4, ?_⟩
+    refine ⟨h1.1, h1.2.1, h1.2.2.1, h1.2.2.2, not_le.mp h2, not_lt.mp h3, not_lt.mp h4, ?_⟩
     intro hlf; rw [hlf] at h5; cases h5
   · push_neg at h1
-    refine ⟨h1.1, h1.2.1, h1.2.2.1, h1.2.2.2, not_lt.mp h2, not_lt.mp h3, not_lt.mp h4, ?_⟩
+    refine ⟨h1.1, h1.2.1, h1.2.2.1, h1.2.2.2, not_le.mp h2, not_lt.mp h3, not_lt.mp h4, ?_⟩
     intro _ d ds hd
     rw [hd] at h
     simp only at h
